@@ -1,4 +1,4 @@
-\* random deep plans with failing collection starts
+\* random deep plans of the as-built design with concurrent collection starts (at most two calls in flight) and starts of collections dropped upstream: init + 15 steps
 SPECIFICATION Spec
 CHECK_DEADLOCK FALSE
 INVARIANTS PlanOut
@@ -11,8 +11,8 @@ CONSTANTS
   HandoffChecksCapacity = FALSE
   ForwardCountedOnce = FALSE
   SourceKeyFromMapping = FALSE
-  WithFail = TRUE
-  MaxFlight = 0
+  WithFail = FALSE
+  MaxFlight = 2
   OfferAtomic = TRUE
-  WithDropped = FALSE
+  WithDropped = TRUE
   DroppedChecksQuota = TRUE
